@@ -127,6 +127,8 @@ func (s Server) Serve(c context.Context, conn network.Conn) (err error) {
 
 		traceCtl        = s.Core.GetTracer()
 		eventsToTrigger *eventStack
+		// traceStarted is true between DoStart and the matching DoFinish
+		traceStarted bool
 
 		// Use a new variable to hold the standard context to avoid modify the initial
 		// context.
@@ -150,10 +152,15 @@ func (s Server) Serve(c context.Context, conn network.Conn) (err error) {
 				}
 				s.eventStackPool.Put(eventsToTrigger)
 			}
-			if shouldRecordInTraceError(err) {
-				traceCtl.DoFinish(cc, ctx, err)
-			} else {
-				traceCtl.DoFinish(cc, ctx, nil)
+			// finish only a trace that was started and not finished yet: when a
+			// keep-alive connection ends while waiting for the next request, the
+			// last request's trace is already finished
+			if traceStarted {
+				if shouldRecordInTraceError(err) {
+					traceCtl.DoFinish(cc, ctx, err)
+				} else {
+					traceCtl.DoFinish(cc, ctx, nil)
+				}
 			}
 		}
 
@@ -212,6 +219,7 @@ func (s Server) Serve(c context.Context, conn network.Conn) (err error) {
 
 		if s.EnableTrace {
 			cc = traceCtl.DoStart(c, ctx)
+			traceStarted = true
 			internalStats.Record(ctx.GetTraceInfo(), stats.ReadHeaderStart, err)
 			eventsToTrigger.push(func(ti traceinfo.TraceInfo, err error) {
 				internalStats.Record(ti, stats.ReadHeaderFinish, err)
@@ -440,6 +448,7 @@ func (s Server) Serve(c context.Context, conn network.Conn) (err error) {
 			} else {
 				traceCtl.DoFinish(cc, ctx, nil)
 			}
+			traceStarted = false
 		}
 
 		ctx.ResetWithoutConn()
